@@ -2613,6 +2613,59 @@ func errorsReturnedRule(r *Report, f *ssa.Function, exact bool) {
 		if reaches && os.Getenv("VERIF_DUMP_ERRTABLE") != "" && nm != "dynamic call" {
 			fmt.Fprintf(os.Stderr, "ERRTABLE %s|%s\n", fnName(f), nm)
 		}
+		if want[nm] && reaches {
+			// polarity: when the error is tested, the failure edge leaves with an error on every
+			// path (an inverted test returns early on success and carries on after a failure)
+			if tests := errTests(c); len(tests) > 0 {
+				okPol := true
+				for _, t := range tests {
+					// a failure edge that classifies the error further (err != io.EOF ...) is not judged
+					if iff, isIf := t.NonNil.Instrs[len(t.NonNil.Instrs)-1].(*ssa.If); isIf {
+						classify := false
+						for _, e := range errOf(c) {
+							if anyIn(w.backSlice(iff.Cond, flowOpt{BinOps: true}), func(v ssa.Value) bool { return v == e }) {
+								classify = true
+							}
+						}
+						if classify {
+							continue
+						}
+					}
+					paths, okp := blockPathsE(t.If.Block(), t.NonNil, 4000)
+					if !okp {
+						continue
+					}
+					nret := 0
+					for _, p := range paths {
+						last := p[len(p)-1]
+						ret, isRet := last.Instrs[len(last.Instrs)-1].(*ssa.Return)
+						if !isRet {
+							continue
+						}
+						nret++
+						for _, v := range retVals(ret, res.Len()-1) {
+							for _, l := range resolveOnPath(v, p) {
+								// what leaves on the failure edge is this error, a wrapping of it, or a
+								// fresh error: not nil, and not the outcome of a later step
+								isE := false
+								for _, e := range errOf(c) {
+									if l == e || anyIn(w.backSlice(l, flowOpt{Through: map[string]bool{"fmt.Errorf": true}, CallArg: true}), func(x ssa.Value) bool { return x == e }) {
+										isE = true
+									}
+								}
+								if !isE && !isFreshErr(l) {
+									okPol = false
+								}
+							}
+						}
+					}
+					if nret == 0 {
+						okPol = false
+					}
+				}
+				r.Decide("path", fmt.Sprintf("%s: a failure of %s#%d leaves the function with an error", fnName(f), nm, ordinalAny(f, c)), okPol, "every path from the failure edge returns a non-nil error", "a path from the failure edge of this call returns nil (the test is inverted, or the failure is retried / ignored on some path): the function carries on with a result that does not exist", c.Pos())
+			}
+		}
 		if want[nm] {
 			seen[nm] = true
 			r.Decide("flow", fmt.Sprintf("%s: error of %s#%d reaches the function's result", fnName(f), nm, ordinalAny(f, c)), reaches, "the error value flows into a return", "the error is dropped (logged at most): the caller carries on as if the step had succeeded", c.Pos())
@@ -3113,4 +3166,64 @@ func guardedFieldsRule(r *Report, rel, typ, mutex string, fields []string, why s
 			r.Decide("lockset", key, ok, how, fmt.Sprintf("%s.%s is accessed without %s (lockset %s): %s", typ, fname, mutex, ls.String(), why), a.Instr.Pos())
 		}
 	}
+}
+
+// decide follows a chain of conditional branches from block b, evaluating each
+// condition with leaf (comparisons; `!x`; boolean merges are If chains in SSA
+// already), until it reaches a block that does something else than branch.
+// ok is false when a condition cannot be evaluated.
+func decide(b *ssa.BasicBlock, leaf func(ssa.Value) (bool, bool)) (*ssa.BasicBlock, bool) {
+	var eval func(v ssa.Value) (bool, bool)
+	eval = func(v ssa.Value) (bool, bool) {
+		if k, ok := constBool(v); ok {
+			return k, true
+		}
+		if u, ok := v.(*ssa.UnOp); ok && u.Op == token.NOT {
+			x, okx := eval(u.X)
+			return !x, okx
+		}
+		return leaf(v)
+	}
+	prev := b
+	start := b
+	for steps := 0; steps < 64; steps++ {
+		iff, ok := b.Instrs[len(b.Instrs)-1].(*ssa.If)
+		if !ok {
+			return b, true
+		}
+		// going round a loop (a block that dominates the starting point) is an outcome
+		if b != start && b.Dominates(start) {
+			return b, true
+		}
+		// only pure condition blocks are walked through (phis of boolean merges, the compared loads)
+		if b != prev {
+			for _, in := range b.Instrs[:len(b.Instrs)-1] {
+				switch in.(type) {
+				case *ssa.Phi, *ssa.BinOp, *ssa.UnOp, *ssa.FieldAddr, *ssa.DebugRef, *ssa.Call:
+				default:
+					return b, true
+				}
+			}
+		}
+		var cond ssa.Value = iff.Cond
+		// a boolean merge: the phi's value is decided by where we came from
+		if ph, isPhi := cond.(*ssa.Phi); isPhi && ph.Block() == b {
+			for k, p := range b.Preds {
+				if p == prev {
+					cond = ph.Edges[k]
+				}
+			}
+		}
+		v, okv := eval(cond)
+		if !okv {
+			return nil, false
+		}
+		prev = b
+		if v {
+			b = b.Succs[0]
+		} else {
+			b = b.Succs[1]
+		}
+	}
+	return nil, false
 }
